@@ -26,7 +26,7 @@ pub fn peer_id(ukey: u64, idx: usize) -> PeerId {
 /// The canonical storable address `var` of peer `peer`: var%3 = 0 udp/quic-v1, 1 tcp, 2 tcp/ws.
 pub fn good_addr(ukey: u64, peer: usize, var: usize) -> String {
     let id = peer_id(ukey, peer);
-    let ip = format!("10.{}.0.{}", peer + 1, var + 1);
+    let ip = format!("10.{}.{}.{}", (peer + 1) % 250, (peer + 1) / 250, var + 1);
     match var % 3 {
         0 => format!("/ip4/{ip}/udp/{}/quic-v1/p2p/{id}", 4000 + var),
         1 => format!("/ip4/{ip}/tcp/{}/p2p/{id}", 5000 + var),
@@ -67,7 +67,7 @@ pub fn input_addr(ukey: u64, peer: usize, var: usize, shape: u8, relay: usize) -
         SHAPE_GOOD => good,
         SHAPE_NO_IP_IP6 => format!("/ip6/::1/{tail}"),
         SHAPE_NO_IP_DNS => format!("/dns4/boot{peer}.example.org/{tail}"),
-        SHAPE_NO_TRANSPORT => format!("/ip4/10.{}.0.{}/p2p/{id}", peer + 1, var + 1),
+        SHAPE_NO_TRANSPORT => format!("/ip4/10.{}.{}.{}/p2p/{id}", (peer + 1) % 250, (peer + 1) / 250, var + 1),
         SHAPE_NO_PEER => good
             .rsplit_once("/p2p/")
             .map(|(l, _)| l.to_string())
